@@ -243,7 +243,11 @@ func seqPool(tokens []string, maxLen int) []string {
 }
 
 // runOverlayTest runs the generated test against the real package.
+// lastReplaySrc: source of the most recent generated replay test (stored in the replay file).
+var lastReplaySrc string
+
 func runOverlayTest(L *Loaded, verif string, testSrc string, race bool) (bool, string) {
+	lastReplaySrc = testSrc
 	dir := filepath.Join(verif, ".work", fmt.Sprintf("replay-%d-%d", os.Getpid(), len(testSrc)))
 	os.MkdirAll(dir, 0o755)
 	defer os.RemoveAll(dir)
